@@ -540,6 +540,11 @@ func cursorKept(j *jobCtx, u Universe, path []Call) {
 		if pre > 24 {
 			pre = 9 + (mi*7)%16
 		}
+		if mi%4 == 0 && len(seq) <= 64 { // near the end: the last, the last but one, ... element (what is appended lands next to it)
+			if pre = len(seq) - (mi/4)%3; pre < 1 {
+				pre = 1
+			}
+		}
 		for s := 0; s < pre && ok; s++ {
 			ok = do(curCall{op: "Next"})
 		}
@@ -571,6 +576,19 @@ func cursorKept(j *jobCtx, u Universe, path []Call) {
 			rel := []string{"Next", "Next", "Next"}
 			if cur.reverse {
 				rel = [][]string{{"Next", "Next", "Prev", "Prev", "Prev"}, {"Prev", "Next", "Next", "Next"}, {"Next", "Next", "Next"}}[(mi/2)%3]
+			}
+			if mi%4 == 0 { // all the way: forward until the end of whatever the iterator now walks, then (if it can) all the way back
+				n := len(seq2) + 3
+				if n > 40 {
+					n = 40
+				}
+				rel = nil
+				for i := 0; i < n; i++ {
+					rel = append(rel, "Next")
+				}
+				for i := 0; i < n && cur.reverse; i++ {
+					rel = append(rel, "Prev")
+				}
 			}
 			okRel := true
 			for _, s := range rel {
